@@ -417,6 +417,18 @@ Proof.
     + simpl. rewrite E. exact C.
 Qed.
 
+Lemma find_str_app_some pool s suf : forall n k, find_str pool s n = Some k -> find_str (pool ++ suf) s n = Some k.
+Proof.
+  induction pool as [|x q IH]; intros n k F; simpl in *; [discriminate|]. destruct (bytes_eqb x s); auto.
+Qed.
+Lemma find_str_app_new pool s suf : existsb (fun x => bytes_eqb x s) pool = false ->
+  forall n, find_str ((pool ++ [s]) ++ suf) s n = Some (n + length pool)%nat.
+Proof.
+  induction pool as [|x q IH]; intros F n; simpl in *.
+  - rewrite (proj2 (bytes_eqb_eq s s) eq_refl). f_equal. lia.
+  - destruct (bytes_eqb x s) eqn:E; [discriminate|]. simpl in F. rewrite (IH F (S n)). f_equal. lia.
+Qed.
+
 (* the pool after any sequence of nvm_add_string calls is [pool0 ++ the new strings in order of first use];
    every call returns the position of its string in that final pool *)
 Lemma add_all_spec : forall ss pool p is_,
@@ -433,21 +445,14 @@ Proof.
       simpl. rewrite Hex. split; [exact A|]. split; [simpl; f_equal; exact B|].
       intros [|j] s0 Hs; simpl in Hs.
       * inversion Hs; subst. exists k. split; [reflexivity|].
-        try rewrite A. clear - F. revert F. generalize 0%nat. induction pool as [|x q IHq]; intros n F; simpl in *; [discriminate|].
-        destruct (bytes_eqb x s0); auto.
+        try rewrite A. apply find_str_app_some. exact F.
       * apply C; exact Hs.
     + destruct (add_all (pool ++ [s]) r) as [p2 is2] eqn:R. inversion H; subst.
       destruct (IH _ _ _ R) as (A & B & C). apply find_str_none in F.
       simpl. rewrite F. split; [rewrite A, <- app_assoc; reflexivity|]. split; [simpl; f_equal; exact B|].
       intros [|j] s0 Hs; simpl in Hs.
       * inversion Hs; subst. exists (length pool). split; [reflexivity|].
-        try rewrite A. clear - F.
-        assert (G : forall n, find_str ((pool ++ [s0]) ++ first_uses (pool ++ [s0]) r) s0 n = Some (n + length pool)%nat).
-        { induction pool as [|x q IHq]; intros n; simpl in *.
-          - rewrite (proj2 (bytes_eqb_eq s0 s0) eq_refl). f_equal. lia.
-          - destruct (bytes_eqb x s0) eqn:E; [discriminate|]. simpl in F.
-            specialize (IHq F (S n)). rewrite IHq. f_equal. lia. }
-        apply (G 0%nat).
+        try rewrite A. apply (find_str_app_new pool s0 _ F 0%nat).
       * apply C; exact Hs.
 Qed.
 
